@@ -76,6 +76,20 @@ theorem reencode_event (e : Ev) (h : simple e = true) (st : EncSt) (hst : st.try
       have hlt : (-i).toNat < 2 ^ 64 := by omega
       rw [encodeFrom_single st _ _ (negInt_reencode' (-i).toNat hlt st), Nat.mod_eq_of_lt hlt]
       exact ⟨rfl, rfl, hst⟩
+  case float b =>
+    simp [encodeEv] at henc; subst henc
+    simp only [renorm, renormFloat, encFloat]
+    by_cases hinf : CE.F.isInf64 b = true
+    · by_cases hs : (CE.F.sign64 b == 1) = true <;> simp [hinf, hs, encodeFrom, encodeEv, encDFloat, hst]
+    · have hinf' : CE.F.isInf64 b = false := by simpa using hinf
+      by_cases hnan : CE.F.isNaN64 b = true
+      · by_cases hq : CE.F.quiet64 b = true <;> simp [hinf', hnan, hq, encodeFrom, encodeEv, encDFloat, hst]
+      · have hnan' : CE.F.isNaN64 b = false := by simpa using hnan
+        by_cases hz : CE.F.isZero64 b = true
+        · by_cases hs : (CE.F.sign64 b == 1) = true <;>
+            simp [hinf', hnan', hz, hs, encodeFrom, encodeEv, encZero, encNegInt, encInt, encPosInt, hst, u8]
+        · have hz' : CE.F.isZero64 b = false := by simpa using hz
+          simp [hinf', hnan', hz', encodeFrom, encodeEv, encFloat, hst]
   case bool b =>
     simp [encodeEv] at henc; subst henc
     cases b <;> simp [renorm, encodeFrom, encodeEv, hst]
